@@ -1,16 +1,20 @@
 ---------------------------- MODULE TaskRun ----------------------------
 (* one execution of TaskRunner.Run (pkg/runner/runner.go:94-180) *)
 EXTENDS Naturals, Sequences, FiniteSets, TLC
-CONSTANTS MaxV, MaxC, K      \* K = the non-zero exit status used by failing commands
-VARIABLES nb, na, cond, nv, nc, allow, F,                 \* configuration
+CONSTANTS MaxV, MinC, MaxC,
+          Ks,          \* the non-zero exit statuses failing commands may use
+          Hook,        \* subset of {"none", "ok", "fail"}: shapes of the before / after hook
+          Conds,       \* subset of {"none", "true", "false"}
+          MaxFail      \* at most this many failing positions
+VARIABLES nb, na, cond, nv, nc, allow, F, K,              \* configuration
           pc, pos, trace, ret, errored, exitCode, skipped, stored
-cfgv == <<nb, na, cond, nv, nc, allow, F>>
-vars == <<nb, na, cond, nv, nc, allow, F, pc, pos, trace, ret, errored, exitCode, skipped, stored>>
+cfgv == <<nb, na, cond, nv, nc, allow, F, K>>
+vars == <<nb, na, cond, nv, nc, allow, F, K, pc, pos, trace, ret, errored, exitCode, skipped, stored>>
 
-Hook == {"none", "ok", "fail"}
-Init == /\ nb \in Hook /\ na \in Hook /\ cond \in {"none", "true", "false"}
-        /\ nv \in 1..MaxV /\ nc \in 0..MaxC /\ allow \in BOOLEAN
-        /\ F \in SUBSET ((1..nv) \X (1..nc))
+Init == /\ nb \in Hook /\ na \in Hook /\ cond \in Conds
+        /\ nv \in 1..MaxV /\ nc \in MinC..MaxC /\ allow \in BOOLEAN
+        /\ F \in {S \in SUBSET ((1..nv) \X (1..nc)) : Cardinality(S) <= MaxFail}
+        /\ K \in Ks /\ (F = {} => K = CHOOSE k \in Ks : TRUE)
         /\ pc = "cond" /\ pos = <<1, 1>> /\ trace = <<>> /\ ret = "nil"
         /\ errored = FALSE /\ exitCode = 0 - 1 /\ skipped = FALSE /\ stored = FALSE
 
@@ -77,4 +81,10 @@ RunsAll == (Done /\ Normal /\ (allow \/ FailIdx = {})) =>
       /\ trace = FullOrder /\ ret = "nil" /\ ~errored /\ exitCode = 0 /\ stored
 ErrIffFailed == Done => ((ret = "err") <=> (Normal /\ ~allow /\ FailIdx # {}) \/ (cond # "false" /\ nb = "fail"))
 Terminates == <>Done
+
+\* C07 as stated: the recorded exit status
+ExitCodeFaithful == Done =>
+      /\ (skipped => exitCode = 0 - 1 /\ ~errored)
+      /\ (errored => exitCode = K)
+      /\ (~errored /\ ~skipped /\ ret = "nil" => exitCode = 0)
 =========================================================================
